@@ -266,6 +266,96 @@ def hist_task(mode):
     return mode, nseq, ntr, failures[:10], len(states), solo
 
 
+# ------------------------------------------------------------------ part: forms of the provider's kwargs / of the consumer's render
+_NO_PROVIDER = object()
+FORM_DICTS = ({"a": 1, "b": 2}, {"b": 3, "a": 4}, {"c": 5}, {"a": 6}, {})
+
+
+def _fmt(d):
+    return "(" + ",".join("%s=%s" % kv for kv in sorted(d.items())) + ")"
+
+
+def forms_task(mode):
+    """(1) `{% provide "k" ...item %}`: the injected object carries exactly THIS provider's keyword arguments - every sequence of
+    <= 3 items over 5 dicts (same names in another order, other names, fewer names, none) in one loop, and as successive renders
+    of one Template object; at page level and inside a component's template.  (2) a component rendered through the Python API
+    from a slot function, with the Context the function receives, below a provider that lives in a component's template."""
+    from django.template import Context, Template
+    from django.utils.safestring import mark_safe
+
+    from django_components import Component
+    from django_components.component_registry import registry
+
+    boot.set_components_setting(context_behavior=mode)
+
+    def dump_gcd(self, **kw):
+        o = self.inject("k", _NO_PROVIDER)  # NB: a default of None means "no default" to inject()
+        return {"f": _fmt(o._asdict()) if o is not _NO_PROVIDER else "-"}
+
+    classes = {
+        "c05dump": type("C05Dump", (Component,), {"__module__": "verif_c05f", "template": "{{ f }}", "get_context_data": dump_gcd}),
+        "c05loop": type("C05Loop", (Component,), {"__module__": "verif_c05f", "get_context_data": lambda self, items=(), **kw: {"items": items},
+                                                   "template": '{% for item in items %}{% provide "k" ...item %}{% component "c05dump" / %}{% endprovide %}{% endfor %}'}),
+        "c05panel": type("C05Panel", (Component,), {"__module__": "verif_c05f", "template": '<p>{% component "c05dump" / %}</p>'}),
+        "c05host": type("C05Host", (Component,), {"__module__": "verif_c05f", "template": '[{% provide "k" v="H" %}{% slot "x" / %}{% endprovide %}|{% component "c05dump" / %}]'}),
+    }
+    for n, c in classes.items():
+        if n in registry.all():
+            registry.unregister(n)
+        registry.register(n, c)
+    agg = par.Agg()
+    page_loop = Template('{% for item in items %}{% provide "k" ...item %}{% component "c05dump" / %}{% endprovide %}{% endfor %}')
+    page_comp = Template('{% component "c05loop" items=items / %}')
+    one = Template('{% provide "k" ...item %}{% component "c05dump" / %}{% endprovide %}')
+
+    def run1(label, fn, want, case):
+        agg.states += 1
+        agg.transitions += 1
+        agg.validated += 1
+        agg.nontrivial += 1
+        agg.expected[label] += 1
+        try:
+            got = strip_markers(fn())
+        except Exception as e:  # noqa
+            got = "%s: %s" % (type(e).__name__, str(e)[:150])
+            boot.clear_render_registries()
+        agg.observe((label, got))
+        if got != want:
+            agg.fail(f"{mode}:forms:{label}:{case.get('key', '')}", f"[{mode}] {label} {case}: expected {want!r}, got {got!r}", dict(case, part="forms", mode=mode))
+        res = residue()
+        if res:
+            agg.fail(f"{mode}:forms-residue:{label}", f"[{mode}] {label} {case}: provide registries {res} after the render", dict(case, part="forms", mode=mode))
+            boot.clear_render_registries()
+
+    for L in (1, 2, 3):
+        for seq_ in itertools.product(range(len(FORM_DICTS)), repeat=L):
+            items = [dict(FORM_DICTS[i]) for i in seq_]
+            want = "".join(_fmt(d) for d in items)
+            key = "-".join(map(str, seq_))
+            run1("spread-in-loop/page", lambda: page_loop.render(Context({"items": items})), want, {"items": items, "key": key})
+            run1("spread-in-loop/component", lambda: page_comp.render(Context({"items": items})), want, {"items": items, "key": key})
+            # the same Template object rendered once per item (history over one `{% provide %}` node)
+            outs = []
+            run1("spread-successive-renders", lambda: "".join(one.render(Context({"item": d})) for d in items), want, {"items": items, "key": key})
+    # (2) Python-API render from a slot function below a provider of a component template
+    Panel, Host = classes["c05panel"], classes["c05host"]
+    for how in ("slot-fn-renders-component", "slot-fn-renders-component-twice", "fill-tag-control"):
+        if how == "fill-tag-control":
+            fn = lambda: Template('{% component "c05host" %}{% fill "x" %}{% component "c05panel" / %}{% endfill %}{% endcomponent %}').render(Context({}))  # noqa: E731
+            want = "[<p>(v=H)</p>|-]"
+        elif how == "slot-fn-renders-component":
+            fn = lambda: Host.render(slots={"x": lambda ctx, data, ref: Panel.render(context=ctx, render_dependencies=False)}, render_dependencies=False)  # noqa: E731
+            want = "[<p>(v=H)</p>|-]"
+        else:
+            fn = lambda: Host.render(slots={"x": lambda ctx, data, ref: mark_safe(Panel.render(context=ctx, render_dependencies=False) + Panel.render(context=ctx, render_dependencies=False))}, render_dependencies=False)  # noqa: E731
+            want = "[<p>(v=H)</p><p>(v=H)</p>|-]"
+        run1("python-render-below-provider", fn, want, {"key": how})
+    boot.clear_render_registries()
+    for n in classes:
+        registry.unregister(n)
+    return mode, agg
+
+
 def run(ctx):
     ev = ctx.ev
     ev.rule = ("PROG: every program over text, for, slot, component(fills), provide(k|m) and consumer components with total node count <= N; "
@@ -283,6 +373,13 @@ def run(ctx):
                     observed_distinct=len(set(solo)), bound={"depth": 3, "pages": len(HIST_PAGES)},
                     samples=[{"mode": mode, "history": [HIST_PAGES[0], HIST_PAGES[2], HIST_PAGES[1]]}])
         ctx.fnd.merge_reports(failures)
+    for mode, agg in par.run_tasks(forms_task, ["django", "isolated"]):
+        ev.add_part(f"forms_{mode}", states=agg.states, transitions=agg.transitions, validated=agg.validated, nontrivial=agg.nontrivial,
+                    observed_distinct=len(agg.observed), expected=agg.expected,
+                    bound={"spread_dicts": [_fmt(d) for d in FORM_DICTS], "sequence_len": 3, "routes": ["loop on the page", "loop in a component", "successive renders of one Template"],
+                           "python_render_below_provider": ["slot function renders a component with the Context it receives", "twice", "fill tag (control)"]},
+                    samples=[{"items": [{"a": 1, "b": 2}, {"b": 3, "a": 4}], "expect": "(a=1,b=2)(a=4,b=3)"}])
+        ctx.fnd.merge_reports(agg.failures[:20])
     ev.assumptions = ["provide tags between a component tag and its fill are outside the profile",
                       "provider chain = render nesting (page -> component template -> slot -> fill content)"]
 
@@ -308,6 +405,11 @@ def replay(ctx, case):
         print("expected: ", exp)
         print("observed: ", (obs[0], strip_markers(obs[1])) if obs[0] == "ok" else obs, "residue:", res)
         return compare_outcome(exp, obs) is None and not (obs[0] == "ok" and res)
+    if case.get("part") == "forms":
+        _, agg = forms_task(mode)
+        for f in agg.failures[:8]:
+            print(f[1])
+        return not agg.failures
     if case.get("part") == "history":
         _, nseq, ntr, failures, _, solo = hist_task(mode)
         for f in failures:
